@@ -17,10 +17,10 @@ META = dict(
     property="C55",
     level="exploration",
     technique="Hypothesis-generated hostile log events (tagged plain data -> objects) against the totality oracle 'returns str (or documented None), raises nothing'",
-    level_text="Random events: format strings from a PEP 3101 grammar with attribute/index lookups, call syntax, conversions, (nested) format specs, and malformed/unbalanced variants; str/bytes(valid+invalid UTF-8)/non-string log_format; values whose str/repr/format/call/getattr/getitem raise or return non-text; real Failures around hostile exceptions and fake failure objects; NaN/inf/huge/non-numeric log_time; odd log_system/log_namespace/log_level; events flattened first or carrying a damaged log_flattened. Every event is passed to formatEvent, _formatEvent, eventAsText (all 8 flag combinations), formatEventAsClassicLogText and formatUnformattableEvent. Sampled, not exhaustive.",
-    level_note="Hostile methods raise Exception subclasses only (never KeyboardInterrupt/SystemExit); events are real dicts with str keys; a custom formatTime is not passed. Hypothesis, the tag interpreter in this file and the built-in str/format machinery are trusted.",
+    level_text="Random events: format strings from a PEP 3101 grammar with attribute/index lookups, call syntax, conversions, (nested) format specs, and malformed/unbalanced variants; str/bytes(valid+invalid UTF-8)/non-string log_format; values whose str/repr/format/call/getattr/getitem raise or return non-text; real Failures around hostile exceptions and fake failure objects; NaN/inf/huge/non-numeric log_time; odd log_system/log_namespace/log_level; events flattened first or carrying a damaged log_flattened. Every event is passed to formatEvent, _formatEvent, eventAsText (all 8 flag combinations), formatEventAsClassicLogText and formatUnformattableEvent; about half of the cases also build a legacy twisted.python.log event dict from the same values (%-format strings valid and malformed, message tuples, isError+failure+why, hostile system) and pass it to textFromEventDict, _safeFormat and FileLogObserver.emit. Hostile methods raise ordinary exceptions, exceptions whose own __str__ raises, and (field values, formats, legacy values) non-Exception BaseExceptions: a custom one, SystemExit, GeneratorExit. A deterministic grid crosses every error kind of str/format with every error kind of repr on both paths. Sampled, not exhaustive.",
+    level_note="Scope decisions: the legacy path of twisted.python.log (an anchored file; _safeFormat promises 'swallowing all errors to always return a string') is inside the statement; so are non-Exception BaseExceptions raised by field values, because _formatEvent / formatUnformattableEvent / _safeFormat catch BaseException on purpose - KeyboardInterrupt is never raised (the legacy code re-raises it deliberately). The objects in log_time/log_system/log_namespace/log_level/log_failure raise Exception subclasses only: their guards are written and documented at Exception level and whether a SystemExit from a log_system's __str__ should be swallowed is debatable. Events are real dicts with str keys; a custom formatTime is not passed; bytes legacy format strings are not generated (_safeFormat would return bytes). Hypothesis, the tag interpreter in this file and the built-in str/format machinery are trusted.",
     design_ref="§5 C55",
-    rule="case = {fmt, fields, meta, flat, error}; non-trivial = the event has a log_format and at least one of: a hostile method actually ran, the generic 'Unable to format' / 'MESSAGE LOST' fallback was produced, a log_failure was rendered, or an odd time/system/namespace/level field was consulted; distinct by the whole case.",
+    rule="case = {fmt, fields, meta, flat, error}; non-trivial = the event has a log_format and at least one of: a hostile method actually ran, the generic 'Unable to format' / 'MESSAGE LOST' fallback was produced, a log_failure was rendered, or an odd time/system/namespace/level field was consulted; or a legacy event in which a hostile method raised an unprintable or non-Exception error; distinct by the whole case.",
 )
 
 
@@ -41,8 +41,30 @@ class _BadReprError(Exception):
         raise Hostile("str of exception")
 
 
+class _Abort(BaseException):
+    """A non-Exception error, like GeneratorExit or SystemExit."""
+
+
 class _Text(str):
     pass
+
+
+RAISES = ("raise", "raise-bad", "raise-base", "raise-exit", "raise-gen")
+
+
+def _raise(kind, what, log):
+    log.append("!" + kind)
+    if kind == "raise":
+        raise Hostile(what)
+    if kind == "raise-bad":         # an exception that cannot be turned into text itself
+        raise _BadStrError()
+    if kind == "raise-base":
+        raise _Abort(what)
+    if kind == "raise-exit":
+        raise SystemExit(3)
+    if kind == "raise-gen":
+        raise GeneratorExit()
+    raise AssertionError(kind)
 
 
 # --------------------------------------------------------------------------
@@ -55,8 +77,8 @@ def _beh(kind, what, log, text="obj"):
         return text
     if kind == "sub":
         return _Text(text)
-    if kind == "raise":
-        raise Hostile(what)
+    if kind in RAISES:
+        _raise(kind, what, log)
     if kind == "bytes":
         return b"bytes"
     if kind == "none":
@@ -90,8 +112,8 @@ class Obj:
     def __call__(self):
         c = self._spec.get("call", "none")
         self._log.append("call")
-        if c == "raise":
-            raise Hostile("call")
+        if c in RAISES:
+            _raise(c, "call", self._log)
         if c == "none":
             return None
         return build(c, self._log)
@@ -157,8 +179,8 @@ def build(spec, log):
 
         def fn():
             log.append("call")
-            if inner == "raise":
-                raise Hostile("call")
+            if inner in RAISES:
+                _raise(inner, "call", log)
             return build(inner, log)
         return fn
     if t == "level":
@@ -237,7 +259,7 @@ def _logger_frame(exc):
     found = "?"
     while tb is not None:
         fn = tb.tb_frame.f_code.co_filename
-        if fn.endswith(("twisted/logger/_format.py", "twisted/logger/_flatten.py")):
+        if fn.endswith(("twisted/logger/_format.py", "twisted/logger/_flatten.py", "twisted/python/log.py")):
             found = tb.tb_frame.f_code.co_name
         tb = tb.tb_next
     return found
@@ -265,7 +287,7 @@ def _make_event(case, log):
         try:
             flattenEvent(event)
             flattened = "yes" if "log_flattened" in event else "nothing to flatten"
-        except Exception:
+        except (Exception, _Abort, SystemExit, GeneratorExit):
             flattened = "flattenEvent raised"
             event.pop("log_flattened", None)
     elif flat == "empty":
@@ -277,7 +299,7 @@ def _make_event(case, log):
     elif flat == "partial":
         try:
             flattenEvent(event)
-        except Exception:       # flattenEvent may raise (not a text-formatting function)
+        except (Exception, _Abort, SystemExit, GeneratorExit):   # flattenEvent may raise (not a text-formatting function)
             event.pop("log_flattened", None)
         fl = event.get("log_flattened")
         if isinstance(fl, dict) and fl:
@@ -299,7 +321,7 @@ def run_case(ctx, case):
     def call(name, fn, *a, **kw):
         try:
             r = fn(*a, **kw)
-        except Exception as e:     # the property: none of these may raise
+        except (Exception, _Abort, SystemExit, GeneratorExit) as e:     # the property: none of these may raise
             where = _logger_frame(e)
             if where == "formatTime":
                 cause = "log_time-" + _time_class(case["meta"].get("log_time"))
@@ -332,6 +354,46 @@ def run_case(ctx, case):
     want_str("formatEventAsClassicLogText",
              call("formatEventAsClassicLogText", F.formatEventAsClassicLogText, event), none_ok=True)
     want_str("formatUnformattableEvent", call("formatUnformattableEvent", F.formatUnformattableEvent, event, error))
+
+    # ---- the legacy text path of twisted.python.log (same values, %-format)
+    legacy = case.get("legacy")
+    if legacy:
+        import io
+        from twisted.python import log as plog
+        ed = {k: build(spec, log) for k, spec in case["fields"]}
+        ed["message"] = tuple(build(x, log) for x in legacy.get("msg", []))
+        ed["isError"] = 0
+        lf = case["meta"].get("log_failure")
+        if legacy.get("err") and lf is not None and lf[0] == "failure":
+            ed["isError"] = 1
+            ed["failure"] = build(lf, log)
+            if legacy.get("why") is not None:
+                ed["why"] = build(legacy["why"], log)
+        if legacy.get("fmt") is not None:
+            ed["format"] = build(legacy["fmt"], log)
+        ed["time"] = 0.0
+        ed["system"] = build(legacy["sys"], log) if legacy.get("sys") is not None else "-"
+        want_str("textFromEventDict", call("textFromEventDict", plog.textFromEventDict, dict(ed)), none_ok=True)
+        if isinstance(ed.get("format"), str):
+            want_str("_safeFormat", call("_safeFormat", plog._safeFormat, ed["format"], dict(ed)))
+        out = io.StringIO()
+        call("FileLogObserver.emit", plog.FileLogObserver(out).emit, dict(ed))
+        want_str("FileLogObserver output", out.getvalue())
+        lt = results["textFromEventDict"]
+        if lt is None:
+            ctx.count("legacy: no text (None)")
+        elif lt.startswith("Invalid format string or unformattable object"):
+            ctx.count("legacy: 'Invalid format string or unformattable object' fallback")
+        elif lt.startswith("UNFORMATTABLE OBJECT WRITTEN TO LOG"):
+            ctx.count("legacy: 'UNFORMATTABLE OBJECT' fallback")
+        elif lt.startswith("PATHOLOGICAL ERROR"):
+            ctx.count("legacy: 'PATHOLOGICAL ERROR' fallback")
+        elif ed["message"]:
+            ctx.count("legacy: message joined with safe_str")
+        elif ed["isError"]:
+            ctx.count("legacy: failure traceback")
+        else:
+            ctx.count("legacy: formatted")
 
     # ---- bookkeeping
     text = results["formatEvent"]
@@ -372,6 +434,15 @@ def run_case(ctx, case):
             ctx.sample(case)
     for h in sorted(set(hostile_ran)):
         ctx.count("hostile method ran: " + h)
+    kinds_raised = sorted(set(x[1:] for x in log if x.startswith("!")))
+    for h in kinds_raised:
+        ctx.count("hostile method raised: " + {"raise": "ordinary exception", "raise-bad": "exception whose own __str__ raises",
+                                               "raise-base": "non-Exception BaseException", "raise-exit": "SystemExit",
+                                               "raise-gen": "GeneratorExit"}[h])
+    if "raise-bad" in kinds_raised and text.startswith("MESSAGE LOST"):
+        ctx.count("'MESSAGE LOST' fallback with an unprintable exception")
+    if legacy and (set(kinds_raised) - {"raise"}):
+        ctx.nontrivial(("legacy", case))
     if found:
         ctx.count("cases with a function that raised")
 
@@ -402,7 +473,10 @@ def _radix(*lists):
     return st.integers(0, total - 1).map(decode)
 
 
-_B = ["ok", "raise", "bytes", "none", "int", "sub", "ok", "raise", "ok", "ok", "ok"]
+# behaviours of the meta fields' objects (Exception subclasses only) ...
+_BX = ["ok", "raise", "bytes", "none", "int", "sub", "ok", "raise", "ok", "ok", "ok", "raise-bad"]
+# ... and of field values / formats: also errors that are not Exception subclasses
+_B = _BX + ["raise-bad", "raise-base", "raise-exit", "raise-gen", "ok", "ok", "ok"]
 NAMES = ["a", "b", "c"]
 ATTRS = ["x", "y", "name"]
 
@@ -442,6 +516,10 @@ def _extend(children):
     )
 
 
+_metaobj = st.builds(
+    lambda beh: ["o", dict(attrs={}, items={}, str=beh[0], repr=beh[1], fmt=beh[2], call="none",
+                           getattr=beh[3], getitem="default")],
+    _radix(_BX, _BX, _BX, ["default", "raise"]))
 _child = st.one_of(_leaf, _leafobj)
 # an object on which the lookups of the format grammar succeed
 _richobj = st.builds(
@@ -483,36 +561,51 @@ TIME = st.one_of(
     st.sampled_from([["f", float("nan")], ["f", float("inf")], ["f", float("-inf")], ["f", 1e20], ["f", -1e20],
                      ["f", 1e308], ["f", 1e13], ["i", 10 ** 30], ["i", -10 ** 30], ["i", 2 ** 63],
                      ["s", "now"], ["b", b"1"], ["l", []], ["t", []]]),
-    _leafobj,
+    _metaobj,
 )
 SYSTEM = st.one_of(st.sampled_from(_NONE3 + [["n"], ["s", "sys"], ["s", "a\nb"], ["b", b"\xff"], ["i", 1]]),
-                   st.sampled_from(_NONE3), _leafobj)
+                   st.sampled_from(_NONE3), _metaobj)
 NAMESPACE = st.one_of(st.sampled_from(_NONE3 + [["s", "a.b"], ["s", "a.b"], ["n"], ["i", 2], ["b", b"ns"]]),
-                      st.sampled_from(_NONE3), _leafobj)
+                      st.sampled_from(_NONE3), _metaobj)
 LEVEL = st.one_of(
     st.sampled_from(_NONE3 + [["n"]] + [["level", n] for n in ("debug", "info", "warn", "error", "critical")]),
     st.sampled_from(_NONE3 + [["n"]] + [["level", n] for n in ("debug", "info", "warn", "error", "critical")]),
     st.sampled_from([["s", "info"], ["i", 3], ["l", []]]),
-    st.builds(lambda v: ["lvl", v], st.one_of(_leaf, _leafobj)),
-    _leafobj,
+    st.builds(lambda v: ["lvl", v], st.one_of(_leaf, _metaobj)),
+    _metaobj,
 )
 FAILURE = st.one_of(
     st.sampled_from(_NONE3), st.sampled_from(_NONE3),
     st.sampled_from([["failure", k] for k in ("plain", "badstr", "badrepr", "unicode", "hostile")] +
                     [["fakefailure", k] for k in ("ok", "raise", "raise-badstr")] +
                     [["n"], ["s", "not a failure"], ["i", 0]]),
-    _leafobj,
+    _metaobj,
 )
 
+_LFMT = st.one_of(
+    st.sampled_from(["%(a)s", "%(a)r and %(b)s", "%(missing)s", "%(a)d", "%(a", "%s", "%", "plain", "%(a)s %(log_x)r",
+                     "%(b).3s", "100%%", "%(a)c", "%(b)r", "%(c)s"]).map(lambda t: ["s", t]),
+    st.sampled_from(["%(a)s", "%(a)r and %(b)s", "%(b)s", "%s"]).map(lambda t: ["s", t]),
+    st.sampled_from([["i", 3], ["n"], ["l", []]]), _leafobj)
+_WHY = [None, ["s", "why"], ["o", dict(str="raise-base", repr="raise", fmt="raise")], ["o", dict(str="raise-bad", repr="raise-bad", fmt="ok")]]
+LEGACY = st.one_of(
+    st.none(),
+    st.builds(lambda fmt, msg, sysv, misc: dict(fmt=fmt, msg=msg, sys=sysv, err=misc[0], why=misc[1]),
+              st.one_of(_LFMT, _LFMT, _LFMT, st.none()),
+              st.one_of(st.just([]), st.just([]), st.just([]), st.lists(_child, min_size=1, max_size=2)),
+              st.one_of(st.none(), st.none(), _leafobj, st.just(["s", "sys"])),
+              _radix([False, False, True], _WHY)))
+
 CASE = st.builds(
-    lambda fmt, fields, t, sy, ns, lv, fa, misc: dict(
+    lambda fmt, fields, t, sy, ns, lv, fa, misc, legacy: dict(
         fmt=fmt, fields=[[k, v] for k, v in fields.items()],
         meta=dict(log_time=t, log_system=sy, log_namespace=ns, log_level=lv, log_failure=fa),
-        flat=misc[0], error=["exc", misc[1]]),
+        flat=misc[0], error=["exc", misc[1]], legacy=legacy),
     FMT, st.one_of(st.fixed_dictionaries(dict(a=VALUE, b=VALUE), optional=dict(c=VALUE)),
                    st.dictionaries(st.sampled_from(NAMES + ["log_x"]), VALUE, max_size=2)),
     TIME, SYSTEM, NAMESPACE, LEVEL, FAILURE,
     _radix([None, "real", None, "empty", "garbage", "partial", None, "real"], ["plain", "badstr", "badrepr", "key"]),
+    LEGACY,
 )
 
 
@@ -539,6 +632,16 @@ def _grid_cases():
         for fmt in ("{a}", "{a!r}", "{a!s:>4}", "{a()}", "{a.x}", "{a[k]}", "{a:{a}}", "{a", "a}", "{}", "{a!z}"):
             for flat in (None, "real", "partial"):
                 yield dict(base, fmt=["s", fmt], fields=[["a", val]], meta=dict(empty), flat=flat)
+    # every kind of error from str/format x every kind of error from repr (the
+    # second one decides what the last-resort text has to cope with), new and legacy path
+    for k1 in RAISES + ("bytes",):
+        for k2 in RAISES + ("none", "ok"):
+            val = ["o", dict(str=k1, repr=k2, fmt=k1)]
+            for fmt, lfmt in (("{a}", "%(a)s"), ("{a!r}", "%(a)r"), ("{a.x} {a}", "%s"), ("{b()}", "%(a")):
+                yield dict(base, fmt=["s", fmt], fields=[["a", val], ["b", ["fn", k1 if k1 in RAISES else "raise"]]],
+                           meta=dict(empty), legacy=dict(fmt=["s", lfmt], msg=[], sys=val if k2 != "ok" else None, err=False, why=None))
+            yield dict(base, fmt=["s", "{a}"], fields=[["a", ["i", 1]]], meta=dict(empty),
+                       legacy=dict(fmt=None, msg=[val, ["i", 2]], sys=None, err=False, why=None))
 
 
 def _shard(ctx, i):
